@@ -130,10 +130,12 @@ Proof.
   - intros i j Hi Hj. destruct i as [|[|i]]; destruct j as [|[|j]]; try lia; reflexivity.
 Qed.
 
-(* known findings exhibited by the faithful model *)
-Theorem tridiagonalization_sign_refuted :
-  exists A : C05.Corr.fmat,
-    let r := tridiag NumXF true A in
-    C05.Corr.ofm_eqb (snd r) (Some (ident NumXF 3)) = true /\ C05.Corr.fm_eqb (fst r) A = false /\
-    get NumXF (fst r) 1 0 = 2%float /\ get NumXF A 1 0 = (-2)%float.
-Proof. exact tridiag_sign_refuted. Qed.
+(* regression witnesses of retired findings (fixed in /repo): the HEAD model
+   returns T = A, U = I on an already tridiagonal input with a negative
+   off-diagonal entry, and R does not depend on a recycled buffer *)
+Theorem tridiagonalization_sign_regression :
+  let A : C05.Corr.fmat := [[1;-2;0];[-2;3;1];[0;1;1]]%float in
+  (let r := tridiag2 NumXF true A in
+   C05.Corr.ofm_eqb (snd r) (Some (ident NumXF 3)) = true /\ C05.Corr.fm_eqb (fst r) A = true) /\
+  (let r := tridiag NumXF true A in C05.Corr.fm_eqb (fst r) A = false).
+Proof. exact tridiag_sign_regression. Qed.
